@@ -291,8 +291,10 @@ namespace {
                 o << ")";
             } else if (auto es = dynamic_cast<ExpressionStatement*>(s)) {
                 // `x = e;` is one shape whether parsed as statement or expression
-                if (dynamic_cast<AssignmentExpression*>(es->expression.get())) {
-                    expr(es->expression.get());
+                Expression* inner = es->expression.get();
+                while (auto pe = dynamic_cast<ParenthesizedExpression*>(inner)) inner = pe->expression.get();
+                if (dynamic_cast<AssignmentExpression*>(inner)) {
+                    expr(inner);
                 } else {
                     o << "(expr ";
                     expr(es->expression.get());
